@@ -4,13 +4,35 @@ import json, os, sys
 HERE = os.path.dirname(os.path.dirname(os.path.abspath(__file__)))
 props = [json.loads(l) for l in open(os.path.join(HERE, "properties.jsonl"))]
 
+E2E_NOTE = "Trusts the user-space spies and the harness-side taps (monkeypatches that only read); a green run means no violation among the generated cases with the class distribution given in the evidence file, not absence."
 CHECKS = {
  "C01": dict(tech="property-based testing (Hypothesis): generated minimize calls, spies on every user-visible point + tap on Problem.__call__, exact box oracle",
-             text="Exploration: thousands of generated problems (all bound patterns, x0 patterns, scale, faults, constraints); every point seen by fun/constraints/callback and res.x is compared exactly with the box, and the solver-space trial point is checked before projection at every evaluation (init/tr/soc/geo).",
-             note="Trusts the spies (vf/spec.py) and the harness-side tap of Problem.__call__; a green run means no violation among the generated cases, not absence.", ref="4/C01"),
+             text="Exploration: thousands of generated problems (all bound patterns incl. decimal, non-representable bounds, x0 patterns, scale, faults, constraints, a family prone to second-order-correction steps); every point seen by fun/constraints/callback and res.x is compared exactly with the box, and the solver-space trial point is checked before projection at every evaluation (init/tr/soc/geo).",
+             note=E2E_NOTE, ref="4/C01"),
  "C02": dict(tech="property-based testing (Hypothesis): generated minimize calls, differential oracle = harness recomputation of the true violation from the user's statement and the logged raw values",
              text="Exploration: generated problems stratified over scale x fixed x constraint kinds x limit patterns x bounds form x NC/dict; res.x must be an evaluated point, res.fun the raw logged value (bitwise), res.maxcv the harness-side violation within a rounding tolerance.",
-             note="Trusts the spies and vf/spec.py:true_violation; tolerance 256*eps*magnitudes.", ref="4/C02"),
+             note=E2E_NOTE + " Tolerance 256*eps*magnitudes.", ref="4/C02"),
+ "C03": dict(tech="stateful property-based testing (Hypothesis rule-based machine) against a reference model of the filter, plus end-to-end differential check against the run's own history",
+             text="Exploration: a rule-based machine feeds a real Problem scripted (objective, violation) pairs with ties, NaN, +-inf, values at feasibility_tol, any filter_size, and compares best_eval(penalty) after every feed with a reference selection; end-to-end runs with store_history compare the returned pair with the reference selection over the history under the final penalty.",
+             note="Reference rule and retained-set model in vf/props/c03.py are the trusted base; values, not identities of x, are compared; when no fully defined pair exists the oracle is permissive (documented fallbacks).", ref="4/C03"),
+ "C05": dict(tech="property-based testing (Hypothesis): generated minimize calls, call counters in spies/taps vs nfev, nit, histories",
+             text="Exploration: generated problems incl. fun=None, maxfev around nb_points, small maxiter, history_size; counts of evaluations (tap) and objective calls (spy) are compared with maxfev and nfev, nit with maxiter, histories bitwise/with tolerance against the logged values.",
+             note=E2E_NOTE, ref="4/C05"),
+ "C06": dict(tech="property-based testing (Hypothesis): call-discipline walk over spy logs + metamorphic replay on look-up tables",
+             text="Exploration: for every generated run each constraint function's call list must be explainable by one call per evaluation point (or a cache skip); a second run on look-up tables of the first run's log, raising on any unexpected call, must reproduce the result bit for bit.",
+             note=E2E_NOTE, ref="4/C06"),
+ "C07": dict(tech="property-based testing (Hypothesis): generated minimize calls aimed at every exit, status/message/success checked against harness-side ground truth",
+             text="Exploration: runs ending by target, feasibility, callback, maxfev (below/at/above nb_points), maxiter, all-fixed, inconsistent bounds, singular systems; each status must be justified by the ground truth (taps, spies, options) and carry its documented message; success implies the documented post-conditions.",
+             note=E2E_NOTE, ref="4/C07"),
+ "C08": dict(tech="property-based testing / fault injection (Hypothesis): valid calls with NaN/inf/huge values injected by evaluation index or region, degenerate bounds and callbacks; exception bucketing by (type, innermost cobyqa frame)",
+             text="Exploration over fault sequences: any exception from a valid call is a violation (bucketed by type and frame), results must be well formed, only finite values may reach the models, reported values are raw, NaN results are never successful; a SIGALRM watchdog marks non-returning cases inconclusive.",
+             note=E2E_NOTE + " AssertionErrors from cobyqa's own debug assertions under debug=True are diagnostics (counted), see DESIGN.md.", ref="4/C08"),
+ "C09": dict(tech="property-based testing (Hypothesis): dry run to place a trigger at a chosen evaluation kind, then oracle on the real run's logs (first triggering evaluation recomputed by the harness)",
+             text="Exploration: a request plan (target / callback / feasibility / two at once) is placed at the first point, inside the initial sampling, at a trust-region, second-order-correction or geometry evaluation; the run must stop exactly there, report the matching status and nfev, and the converse must hold.",
+             note=E2E_NOTE + " Cases within rounding of feasibility_tol are counted as undecidable.", ref="4/C09"),
+ "C20": dict(tech="property-based testing (Hypothesis): metamorphic pairs of runs (never-stopping vs stopping at call k vs overwriting callback) over all callback forms",
+             text="Exploration: callback called once per evaluation in the right convention with an in-bounds, already evaluated user-space point and its raw value; the run stopped at call k returns exactly what the never-stopping run handed to call k (nfev=k, status 3); overwriting the array changes nothing.",
+             note=E2E_NOTE, ref="4/C20"),
 }
 NOT_YET = "check not built yet in this session (planned, see DESIGN.md section 4)"
 
